@@ -37,10 +37,16 @@ for pid in sorted(PROPS):
     checks.append({"property_id": pid, "quick_cmd": "./check %s quick" % pid, "thorough_cmd": "./check %s thorough" % pid,
                    "evidence_file": "/verif/evidence/%s.json" % pid, "replay_cmd_template": "./check --replay {path}", "engine": cfg["engine"],
                    "level_claimed": {"category": cat, "text": text, "design_ref": ref},
-                   "level_note": "; ".join(cfg.get("assumptions", [])) + "; real code: libyara (+cli for C18) rebuilt from /repo's working tree with ASan+UBSan; simulated: " + ", ".join(cfg["components"]["stub"]),
+                   "level_note": "; ".join(cfg.get("assumptions", [])) + "; real code: libyara (+cli for C18 and the command-line parts of C17 and C20) rebuilt from /repo's working tree with ASan+UBSan; simulated: " + ", ".join(cfg["components"]["stub"]),
                    "technique": TECH[pid]})
     e = engines.setdefault(cfg["engine"], {"name": cfg["engine"], "path": "/verif/engines/%s.cc" % cfg["engine"], "serves_properties": [], "kind_free_text": ""})
     e["serves_properties"].append(pid)
+    # further parts of a check may run in another engine (C17 and C20 have a command-line part in sim_cli)
+    for part in cfg.get("parts", []):
+        pe = part.get("engine")
+        if pe and pe != cfg["engine"]:
+            e2 = engines.setdefault(pe, {"name": pe, "path": "/verif/engines/%s.cc" % pe, "serves_properties": [], "kind_free_text": ""})
+            if pid not in e2["serves_properties"]: e2["serves_properties"].append(pid)
 KIND = {"sim_alloc": "allocation-failure enumeration under forked children", "sim_persist": "simulated disk/stream/heap under save, load and compile", "sim_blocks": "simulated block iterator and file syscalls",
         "sim_protocol": "callback reply plans vs protocol model", "sim_history": "operation histories vs reference models", "sim_clock": "simulated clock and limit negotiation",
         "sim_threads": "baton scheduler over library scanner threads", "sim_cli": "baton scheduler under the real yara/yarac mains"}
